@@ -25,9 +25,9 @@
   `C08_D12_witness`, `C08_D35_witness`.  `C08_exactly_once_partial` carries the complementary hypothesis: the request
   does not raise (every `find_key` of the request ends on a keypress boundary and `get_key` does not raise).
   `C08_no_early` (never before its time; time order; ties in trigger order - via sortedness and stability of the
-  model's sort), `C08_timeout`, `C08_prompt` (all six kinds of "deliverable"), the multi-request corollary
+  model's sort), `C08_timeout_partial`, `C08_prompt` (all six kinds of "deliverable"), the multi-request corollary
   `C08_exactly_once_history`, the paste clauses (`C08_paste_iff`, `C08_paste_fuel`), "None only when nothing is
-  readable" (`C08_none_nothing_readable`) and the unreachability of `Fail.outOfFuel` (`C08_wait_fuel`,
+  readable" (`C08_none_nothing_readable_partial`) and the unreachability of `Fail.outOfFuel` (`C08_wait_fuel`,
   `C08_no_out_of_fuel`) are proved further down.
 -/
 import Curtsies.Model.Input
@@ -534,7 +534,8 @@ theorem C08_exactly_once (P : Params) (gk : List Nat → Bool → Except PyErr (
               { st with scheduled := (w, e) :: srest } ag
             exact ⟨fired, lost, hf, Took.before hsort ht, hl⟩
 
-/-- The property's first sentence at full strength: NO request ever loses a byte. False (D15, D12). -/
+/-- The property's first sentence at full strength: NO request ever loses a byte.
+    REFUTED: `C08_full_statement_false` (from the D15 witness; D12 and D35 refute it as well). -/
 def C08_full_statement : Prop :=
   ∀ (β κ : Type) (P : Params) (gk : List Nat → Bool → Except PyErr (Option κ)) (val : β → Nat) (wf : Nat)
     (st : InSt β) (ag : Agenda β) (timeout : Option Time),
@@ -544,7 +545,12 @@ def C08_full_statement : Prop :=
 /-- Exactly once, in order, never dropped - for every request that does not raise.  "Does not raise" is the
     complement of the union of three open findings, the only ways `find_key` raises: D15 (the available bytes end
     inside a multi-byte keypress -> ValueError), D12 (`get_key` raises UnicodeDecodeError on an escape-sequence prefix
-    followed by a byte >= 0x80) and D35 (`get_key` raises UnicodeDecodeError on ill-formed UTF-8 in mid-stream). -/
+    followed by a byte >= 0x80) and D35 (`get_key` raises UnicodeDecodeError on ill-formed UTF-8 in mid-stream).
+    The hypothesis is an OUTCOME (the request returned); being an outcome it also excludes `get_key`'s
+    `len(seq) > MAX_KEYPRESS_SIZE` ValueError (unreachable with the real tables: every proper prefix of a key and every
+    unfinished UTF-8 sequence is shorter) and the paste branch's `assert`.  Input-level forms: `C08_find_key_complete`
+    (a buffer that starts with a complete keypress yields exactly it, whatever follows) and, for the transcription of
+    the real decoder, the witnesses and `C08_no_loss_*` in Properties/C08Real.lean. -/
 theorem C08_exactly_once_partial (P : Params) (gk : List Nat → Bool → Except PyErr (Option κ)) (val : β → Nat)
     (wf : Nat) (st : InSt β) (ag : Agenda β) (timeout : Option Time) (o : Option (Out κ β))
     (h : (send P gk val wf st ag timeout).1 = .ok o) :
@@ -658,6 +664,34 @@ theorem C08_D35_witness :
     (match r.1 with | .error (.py .unicodeDecodeError) => true | _ => false) = true ∧
       r.2.1.unprocessed = [] ∧ r.2.1.osbuf = [] := by
   decide
+
+/-- The full-strength statement is not merely unproved: it is FALSE (D15; likewise D12, D35). -/
+theorem C08_full_statement_false : ¬ C08_full_statement := by
+  intro h
+  obtain ⟨fired, hf, ht⟩ := h Nat (List Nat) toyParams toyKey id 10 ({} : InSt Nat)
+    [(0, .arrive [0xe2, 0x82]), (1, .arrive [0xac])] none
+  have hw := C08_D15_witness
+  simp only [] at hw
+  obtain ⟨h1, h2, h3, h4⟩ := hw
+  have hb := ht.b
+  -- pend after = []
+  have hp : pend (send toyParams toyKey id 10 ({} : InSt Nat) [(0, .arrive [0xe2, 0x82]), (1, .arrive [0xac])] none).2.1 = [] := by
+    simp [pend, h2, h3]
+  rw [hp] at hb
+  -- the result is an error so outB = []
+  have ho : outB (resOut (send toyParams toyKey id 10 ({} : InSt Nat) [(0, .arrive [0xe2, 0x82]), (1, .arrive [0xac])] none).1) = ([] : List Nat) := by
+    decide
+  rw [ho] at hb
+  -- fired has length 1: it is the first item
+  have hlen := congrArg List.length hf
+  simp [h4] at hlen
+  match fired, hlen with
+  | [x], _ =>
+    simp at hf
+    have : x = (0, EnvAct.arrive [0xe2, 0x82]) := by
+      have := hf.1; exact this.symm
+    subst this
+    simp [pend, envB, bOf] at hb
 
 /-- Non-vacuity of `C08_exactly_once_partial`: the same bytes arriving whole come back as one keypress. -/
 example : (match (send toyParams toyKey id 10 ({} : InSt Nat) [(0, .arrive [0xe2, 0x82, 0xac])] none).1 with
@@ -1226,10 +1260,19 @@ theorem take_length_zero {α : Type} (l : List α) (n : Nat) (hn : n > 0) (h : (
     | zero => omega
     | succ k => simp at h
 
-/-- TIMEOUT: with no scheduled event pending and no spurious readiness, a request that returns `None` was given a
+/-- the timeout clause without the exclusion of spurious readiness / end-of-file: FALSE for the code as it is (the
+    stream is reported readable, os.read returns nothing, `_send` returns None at once - by design: the SIGTSTP/dsusp
+    case; the same happens on EOF).  Stream EOF is outside the property's quantifier (arrivals, callbacks, requests). -/
+def C08_timeout_full_statement : Prop :=
+  ∀ (β κ : Type) (P : Params) (gk : List Nat → Bool → Except PyErr (Option κ)) (val : β → Nat) (wf : Nat)
+    (st : InSt β) (ag : Agenda β) (timeout : Option Time), st.scheduled = [] → P.readSize > 0 →
+    (send P gk val wf st ag timeout).1 = .ok none →
+    ∃ T, timeout = some T ∧ st.clock + T ≤ (send P gk val wf st ag timeout).2.1.clock
+
+/-- TIMEOUT (partial: spurious readiness / EOF excluded by `hz`, `hq`): with no scheduled event pending and no spurious readiness, a request that returns `None` was given a
     timeout and returns no earlier than `start + timeout` (whatever else happens meanwhile: event-less wake-ups,
     signals, callbacks). -/
-theorem C08_timeout (P : Params) (gk : List Nat → Bool → Except PyErr (Option κ)) (val : β → Nat) (wf : Nat)
+theorem C08_timeout_partial (P : Params) (gk : List Nat → Bool → Except PyErr (Option κ)) (val : β → Nat) (wf : Nat)
     (st : InSt β) (ag : Agenda β) (timeout : Option Time)
     (hs : st.scheduled = []) (hz : st.spurious = false) (hq : ∀ x ∈ ag, isSpur x.2 = false) (hr : P.readSize > 0)
     (h : (send P gk val wf st ag timeout).1 = .ok none) :
@@ -1728,7 +1771,7 @@ theorem sendRest_none_idle (P : Params) (gk : List Nat → Bool → Except PyErr
     involved), afterwards no trigger pipe holds an unread byte, the wake-up fd holds none and the stream holds none.
     In particular a thread-safe callback whose write has landed is never passed over by a timeout: its pipe byte makes
     `select` return, the pipe branch of the wait pops the event (`C08_wait_exactly_once`) and the request returns it. -/
-theorem C08_none_nothing_readable (P : Params) (gk : List Nat → Bool → Except PyErr (Option κ)) (val : β → Nat)
+theorem C08_none_nothing_readable_partial (P : Params) (gk : List Nat → Bool → Except PyErr (Option κ)) (val : β → Nat)
     (wf : Nat) (st : InSt β) (ag : Agenda β) (timeout : Option Time) (hz : st.spurious = false)
     (hq : ∀ x ∈ ag, isSpur x.2 = false) (hr : P.readSize > 0)
     (h : (send P gk val wf st ag timeout).1 = .ok none) :
@@ -1775,6 +1818,277 @@ theorem C08_none_nothing_readable (P : Params) (gk : List Nat → Bool → Excep
           · subst hn; omega
           · exact ih (k + 1) hk n hn
     exact gen _ _ hp
+
+/-! ## input-level form: streams made of complete keypresses lose nothing -/
+
+/-- `find_key` on a buffer that STARTS with a complete keypress `p` (every shorter non-empty prefix is "need more",
+    `p` itself is a key) returns exactly that keypress, consumes exactly `p`, whatever follows. -/
+theorem findKey_complete_aux (gk : List Nat → Bool → Except PyErr (Option κ)) (val : β → Nat) (p rest : List β) (k : κ)
+    (hk : gk (p.map val) rest.isEmpty = .ok (some k))
+    (hpre : ∀ q, q <+: p → q ≠ [] → q ≠ p → gk (q.map val) false = .ok none) :
+    ∀ (p2 cur : List β), cur ++ p2 = p → p2 ≠ [] → findKey gk val (p2 ++ rest) cur = (.ok (some k), p, rest) := by
+  intro p2
+  induction p2 with
+  | nil => intro cur _ h; exact absurd rfl h
+  | cons b p2' ih =>
+    intro cur hc _
+    simp only [List.cons_append]
+    unfold findKey
+    simp only []
+    by_cases he : p2' = []
+    · subst he
+      have hcur : cur ++ [b] = p := by simpa using hc
+      simp only [List.nil_append, hcur, hk]
+    · have hflag : (p2' ++ rest).isEmpty = false := by
+        cases p2' with
+        | nil => exact absurd rfl he
+        | cons x xs => rfl
+      have hq : gk ((cur ++ [b]).map val) false = .ok none := by
+        apply hpre
+        · exact ⟨p2', by rw [← hc]; simp⟩
+        · simp
+        · intro heq
+          have : (cur ++ [b]).length = p.length := by rw [heq]
+          rw [← hc] at this
+          simp at this
+          cases p2' with
+          | nil => exact he rfl
+          | cons x xs => simp at this
+      rw [hflag, hq]
+      exact ih (cur ++ [b]) (by rw [← hc]; simp) he
+
+theorem C08_find_key_complete (gk : List Nat → Bool → Except PyErr (Option κ)) (val : β → Nat) (p rest : List β) (k : κ)
+    (hp : p ≠ []) (hk : gk (p.map val) rest.isEmpty = .ok (some k))
+    (hpre : ∀ q, q <+: p → q ≠ [] → q ≠ p → gk (q.map val) false = .ok none) :
+    findKey gk val (p ++ rest) [] = (.ok (some k), p, rest) :=
+  findKey_complete_aux gk val p rest k hk hpre p [] rfl hp
+
+/-- a complete keypress for the decoder `gk`: not longer than MAX_KEYPRESS_SIZE, recognised with and without
+    look-ahead, and none of its proper prefixes is anything but "need more bytes" -/
+structure IsUnit (gk : List Nat → Bool → Except PyErr (Option κ)) (val : β → Nat) (maxKey : Nat) (u : List β) (k : κ) : Prop where
+  ne : u ≠ []
+  short : u.length ≤ maxKey
+  pre : ∀ q, q <+: u → q ≠ [] → q ≠ u → gk (q.map val) false = .ok none
+  key : ∀ full, gk (u.map val) full = .ok (some k)
+
+/-- a byte string that is a concatenation of complete keypresses: nothing in it has the shape of D12, D15 or D35 -/
+inductive Units (gk : List Nat → Bool → Except PyErr (Option κ)) (val : β → Nat) (maxKey : Nat) : List β → Prop
+  | nil : Units gk val maxKey []
+  | cons (u rest : List β) (k : κ) : IsUnit gk val maxKey u k → Units gk val maxKey rest → Units gk val maxKey (u ++ rest)
+
+theorem Units.append {gk : List Nat → Bool → Except PyErr (Option κ)} {val : β → Nat} {m : Nat} {a b : List β}
+    (ha : Units gk val m a) (hb : Units gk val m b) : Units gk val m (a ++ b) := by
+  induction ha with
+  | nil => simpa using hb
+  | cons u rest k hu _ ih => rw [List.append_assoc]; exact Units.cons u _ k hu ih
+
+/-- with the first keypress wholly buffered (the buffer holds >= MAX_KEYPRESS_SIZE bytes, or nothing more is to come)
+    `find_key` returns it and what stays behind is again made of complete keypresses -/
+theorem findKey_units (gk : List Nat → Bool → Except PyErr (Option κ)) (val : β → Nat) (m : Nat) (buf more : List β)
+    (hu : Units gk val m (buf ++ more)) (hne : buf ≠ []) (hcond : m ≤ buf.length ∨ more = []) :
+    ∃ u k rest, buf = u ++ rest ∧ u ≠ [] ∧ Units gk val m (rest ++ more) ∧
+      findKey gk val buf [] = (.ok (some k), u, rest) := by
+  generalize hall : buf ++ more = all at hu
+  cases hu with
+  | nil =>
+    have : buf = [] := (List.append_eq_nil_iff.mp hall).1
+    exact absurd this hne
+  | cons u tail k hunit htail =>
+    have hlen : u.length ≤ buf.length := by
+      rcases hcond with h | h
+      · exact Nat.le_trans hunit.short h
+      · subst h
+        have : buf = u ++ tail := by simpa using hall
+        rw [this]; simp
+    -- u is a prefix of buf
+    have hpre : u <+: buf := by
+      have h1 : u <+: buf ++ more := ⟨tail, hall.symm⟩
+      exact (List.prefix_append_right_inj _).mp (by
+        have := List.prefix_of_prefix_length_le h1 (List.prefix_append buf more) hlen
+        exact (List.prefix_append_right_inj []).mpr (by simpa using this)) |> fun h => by simpa using h
+    obtain ⟨rest, hrest⟩ := hpre
+    have htl : tail = rest ++ more := by
+      have : u ++ tail = u ++ (rest ++ more) := by rw [← List.append_assoc, hrest, hall]
+      exact List.append_cancel_left this
+    refine ⟨u, k, rest, hrest.symm, hunit.ne, by rw [← htl]; exact htail, ?_⟩
+    rw [← hrest]
+    exact C08_find_key_complete gk val u rest k hunit.ne (hunit.key _) hunit.pre
+
+theorem findKey_nil (gk : List Nat → Bool → Except PyErr (Option κ)) (val : β → Nat) :
+    findKey gk val ([] : List β) [] = (.ok none, [], []) := by
+  unfold findKey; rfl
+
+theorem read_cond (P : Params) (st : InSt β) (hr : P.maxKey ≤ P.readSize) :
+    P.maxKey ≤ (nonblockingRead P st).2.unprocessed.length ∨ (nonblockingRead P st).2.osbuf = [] := by
+  simp only [nonblockingRead]
+  by_cases h : st.osbuf.length ≤ P.readSize
+  · exact Or.inr (List.drop_eq_nil_of_le h)
+  · refine Or.inl ?_
+    simp only [List.length_append, List.length_take]
+    omega
+
+theorem pasteLoop_units (P : Params) (gk : List Nat → Bool → Except PyErr (Option κ)) (val : β → Nat)
+    (hr : P.maxKey ≤ P.readSize) :
+    ∀ (f : Nat) (acc : List (κ × List β)) (st : InSt β), Units gk val P.maxKey (pend st) →
+      ∀ e, (pasteLoop P gk val f acc st).1 ≠ .error (.py e) := by
+  intro f
+  induction f with
+  | zero => intro acc st _ e; simp [pasteLoop]
+  | succ f ih =>
+    intro acc st hu e
+    unfold pasteLoop
+    simp only []
+    generalize hst1 : (if st.unprocessed.length < P.maxKey then (nonblockingRead P st).2 else st) = st1
+    have hp : pend st1 = pend st ∧ (P.maxKey ≤ st1.unprocessed.length ∨ st1.osbuf = []) := by
+      subst hst1
+      split
+      · exact ⟨by simp [nonblockingRead, pend], read_cond P st hr⟩
+      · rename_i h; exact ⟨rfl, Or.inl (by omega)⟩
+    obtain ⟨hp1, hcond⟩ := hp
+    by_cases hb : st1.unprocessed = []
+    · rw [hb, findKey_nil]; simp
+    · have hu1 : Units gk val P.maxKey (st1.unprocessed ++ st1.osbuf) := by
+        have : pend st1 = st1.unprocessed ++ st1.osbuf := rfl
+        rw [← this, hp1]; exact hu
+      obtain ⟨u, k, rest, _, _, hrest, hfk⟩ := findKey_units gk val P.maxKey st1.unprocessed st1.osbuf hu1 hb hcond
+      rw [hfk]
+      simp only []
+      exact ih _ _ (by simpa [pend] using hrest) e
+
+theorem sendRead_units (P : Params) (gk : List Nat → Bool → Except PyErr (Option κ)) (val : β → Nat)
+    (hr : P.maxKey ≤ P.readSize) (st : InSt β) (ag : Agenda β) (hu : Units gk val P.maxKey (pend st)) :
+    ∀ e, (sendRead P gk val st ag).1 ≠ .error (.py e) := by
+  intro e
+  unfold sendRead
+  simp only []
+  have hc := read_cond P st hr
+  have hp : pend (nonblockingRead P st).2 = pend st := by simp [nonblockingRead, pend]
+  have hn : (nonblockingRead P st).1 ≠ 0 → (nonblockingRead P st).2.unprocessed ≠ [] := by
+    simp only [nonblockingRead]
+    intro h1 h2
+    simp only [List.append_eq_nil_iff] at h2
+    rw [h2.2] at h1; simp at h1
+  generalize (nonblockingRead P st) = nr at hc hp hn
+  obtain ⟨n, st1⟩ := nr
+  simp only [] at hc hp hn ⊢
+  split
+  · simp
+  · rename_i hn0
+    have hu1 : Units gk val P.maxKey (st1.unprocessed ++ st1.osbuf) := by
+      have : pend st1 = st1.unprocessed ++ st1.osbuf := rfl
+      rw [← this, hp]; exact hu
+    split
+    · exact pasteLoop_units P gk val hr _ _ _ (by rw [hp]; exact hu) e
+    · obtain ⟨u, k, rest, _, _, _, hfk⟩ := findKey_units gk val P.maxKey st1.unprocessed st1.osbuf hu1
+        (hn (by simpa using hn0)) hc
+      rw [hfk]; simp
+
+theorem afterWait_units (P : Params) (gk : List Nat → Bool → Except PyErr (Option κ)) (val : β → Nat)
+    (hr : P.maxKey ≤ P.readSize) (ready : Bool) (st : InSt β) (ag : Agenda β) (hu : Units gk val P.maxKey (pend st)) :
+    ∀ e, (afterWait P gk val ready st ag).1 ≠ .error (.py e) := by
+  intro e
+  unfold afterWait
+  split
+  · simp only []
+    split
+    · simp
+    · split
+      · simp
+      · exact sendRead_units P gk val hr _ _ (by simpa [pend] using hu) e
+  · split
+    · simp
+    · exact sendRead_units P gk val hr _ _ hu e
+
+theorem waitLoop_not_py (P : Params) (timeout : Option Time) (t0 : Time) (f : Nat) (remaining : Option Time)
+    (st : InSt β) (ag : Agenda β) (e : PyErr) :
+    (waitLoop (κ := κ) P timeout t0 f remaining st ag).1 ≠ .error (.py e) := by
+  fun_induction waitLoop (κ := κ) P timeout t0 f remaining st ag with
+  | case1 x st ag => simp
+  | case2 f remaining st ag st1 ag1 hs => simp
+  | case3 f remaining st ag st1 ag1 hs => simp
+  | case4 f remaining st ag st1 ag1 hs => simp
+  | case5 f remaining st ag n rest st1 ag1 hs st2 hn hg => simp
+  | case6 f remaining st ag n rest st1 ag1 hs st2 hn hg ih => exact ih
+  | case7 f remaining st ag n rest st1 ag1 hs st2 hn ih => exact ih
+  | case8 f remaining st ag i st1 ag1 hs st2 e q he => simp
+  | case9 f remaining st ag i st1 ag1 hs st2 he ih => exact ih
+
+/-- every byte string the environment delivers is made of complete keypresses -/
+def PayloadUnits (gk : List Nat → Bool → Except PyErr (Option κ)) (val : β → Nat) (m : Nat) (ag : Agenda β) : Prop :=
+  ∀ x ∈ ag, Units gk val m (bOf x.2)
+
+theorem envB_units {gk : List Nat → Bool → Except PyErr (Option κ)} {val : β → Nat} {m : Nat} (f : Agenda β)
+    (h : PayloadUnits gk val m f) : Units gk val m (envB f) := by
+  induction f with
+  | nil => exact Units.nil
+  | cons x xs ih =>
+    have : envB (x :: xs) = bOf x.2 ++ envB xs := by simp [envB]
+    rw [this]
+    exact (h x List.mem_cons_self).append (ih fun y hy => h y (List.mem_cons_of_mem _ hy))
+
+theorem sendRest_units (P : Params) (gk : List Nat → Bool → Except PyErr (Option κ)) (val : β → Nat)
+    (hr : P.maxKey ≤ P.readSize) (wf : Nat) (tuc : Option Time) (st : InSt β) (ag : Agenda β)
+    (hu : Units gk val P.maxKey st.unprocessed) (ho : Units gk val P.maxKey st.osbuf)
+    (ha : PayloadUnits gk val P.maxKey ag) :
+    ∀ e, (sendRest P gk val wf tuc st ag).1 ≠ .error (.py e) := by
+  intro e
+  unfold sendRest
+  by_cases hb : st.unprocessed = []
+  · rw [hb, findKey_nil]
+    simp only []
+    have est : ({ st with unprocessed := [] } : InSt β) = st := by cases st; simp_all
+    rw [est]
+    have hnone := waitLoop_none (κ := κ) P tuc st.clock wf tuc st ag (RemInv.init tuc st.clock)
+    have hpy := waitLoop_not_py (κ := κ) P tuc st.clock wf tuc st ag
+    generalize waitLoop (κ := κ) P tuc st.clock wf tuc st ag = wr at hnone hpy
+    obtain ⟨wres, st1, ag1⟩ := wr
+    cases wres with
+    | error fl =>
+      simp only []
+      intro h
+      simp only [Except.error.injEq] at h
+      exact hpy e (by simp [h])
+    | ok pr =>
+      obtain ⟨ready, ev⟩ := pr
+      cases ev with
+      | some ev => simp
+      | none =>
+        simp only []
+        obtain ⟨⟨fired, hf, hg⟩, _, _⟩ := hnone ready rfl
+        apply afterWait_units P gk val hr
+        rw [hg.b]
+        refine Units.append (by simpa [pend, hb] using ho) (envB_units fired ?_)
+        intro x hx
+        exact ha x (by rw [hf]; exact List.mem_append_left _ hx)
+  · obtain ⟨u, k, rest, _, _, _, hfk⟩ := findKey_units gk val P.maxKey st.unprocessed [] (by simpa using hu) hb (Or.inr rfl)
+    rw [hfk]; simp
+
+/-- INPUT-LEVEL NO-LOSS: if what is buffered, what the OS holds and every byte string that arrives (or is ungot)
+    while the request runs are concatenations of complete keypresses for the decoder - i.e. contain nothing of the
+    shape of D12 (prefix + high byte), D15 (truncated keypress) or D35 (ill-formed UTF-8) - then the request does not
+    raise, hence (`C08_exactly_once_partial`) loses nothing.  (READ_SIZE >= MAX_KEYPRESS_SIZE is asserted by input.py.) -/
+theorem C08_no_loss_wellformed (P : Params) (gk : List Nat → Bool → Except PyErr (Option κ)) (val : β → Nat)
+    (hr : P.maxKey ≤ P.readSize) (wf : Nat) (st : InSt β) (ag : Agenda β) (timeout : Option Time)
+    (hu : Units gk val P.maxKey st.unprocessed) (ho : Units gk val P.maxKey st.osbuf)
+    (ha : PayloadUnits gk val P.maxKey ag) :
+    ∀ e, (send P gk val wf st ag timeout).1 ≠ .error (.py e) := by
+  intro e
+  by_cases hbusy : st.sigints > 0 ∨ st.queued ≠ [] ∨ st.interrupting ≠ []
+  · obtain ⟨ev, h1, _⟩ := send_busy P gk val wf st ag timeout hbusy
+    rw [h1]; simp
+  · have hg : ¬ st.sigints > 0 := fun x => hbusy (Or.inl x)
+    have hq0 : st.queued = [] := Classical.byContradiction fun x => hbusy (Or.inr (Or.inl x))
+    have hi : st.interrupting = [] := Classical.byContradiction fun x => hbusy (Or.inr (Or.inr x))
+    rw [send_idle P gk val wf st ag timeout hg hq0 hi]
+    generalize sortSched st.scheduled = so
+    cases so with
+    | nil => exact sendRest_units P gk val hr wf timeout st ag hu ho ha e
+    | cons hd srest =>
+      obtain ⟨w, e0⟩ := hd
+      simp only []
+      split
+      · simp
+      · exact sendRest_units P gk val hr wf _ { st with scheduled := (w, e0) :: srest } ag hu ho ha e
 
 /-! ## the fuel of the wait loop suffices -/
 def mu (st : InSt β) (ag : Agenda β) : Nat := st.wake.length + st.pipes.sum + (PIPE_WRITE + 1) * ag.length
